@@ -98,7 +98,7 @@ func VerifyFunc(p *Program, fc *FuncContract) (g *Gen, err error) {
 	}
 	for _, sc := range fc.Sites {
 		if g.siteHits[sc.Label] == 0 {
-			return nil, fmt.Errorf("contract-stale: %s.%s: site %s (%s) matches no call", fc.Pkg, fc.Name, sc.Label, sc.Pattern)
+			return nil, fmt.Errorf("contract-stale: %s.%s: site %s (%s) matches no instruction", fc.Pkg, fc.Name, sc.Label, sc.Pattern)
 		}
 	}
 	if f.exitReach != "false" {
